@@ -392,7 +392,7 @@ impl VTreeManager {
 
     /// produces the number of variables allocated by this vtree
     pub fn num_vars(&self) -> usize {
-        self.vtree_root().all_vars().into_iter().max().unwrap()
+        self.vtree_root().num_vars()
     }
 }
 
